@@ -31,7 +31,7 @@ use ec_core::{
 };
 use rand::Rng;
 use serde::{Deserialize, Serialize};
-use simcore::{catch, fnv1a, main_for, mix, Check, Obs, RngSpec, Tier, Violation, Xo};
+use simcore::{SimRng, catch, fnv1a, main_for, mix, Check, Obs, RngSpec, Tier, Violation, Xo};
 
 // ---------------------------------------------------------------------------
 // error classification
@@ -415,8 +415,25 @@ where
     let mut soft = false;
     allowed(sel, &lens, &mut expected, &mut soft);
     let mut rng = spec.build();
+    // in a third of the runs the selector VALUE is used once before the checked call, on a different
+    // population (other size, two more cases per individual): a selector must not carry anything over
+    let warm = spec.seed % 3 == 0;
+    let warm_rows: Vec<Vec<i64>> = rows
+        .iter()
+        .skip(rows.len() / 2)
+        .chain(rows.iter().take(1))
+        .map(|r| r.iter().copied().chain([1, 0]).collect())
+        .collect();
+    if warm {
+        obs.hit("probe.selector-value-used-before-the-checked-call");
+    }
     let r = catch(|| {
         let node = build::<R>(sel);
+        if warm {
+            let wp: Pop<R> = make_pop(&warm_rows);
+            let mut wr = SimRng::seeded(spec.seed ^ 0x77a2_11f0);
+            let _ = node.select(&wp, &mut wr);
+        }
         node.select(&pop, &mut rng).map(|r| pop.iter().position(|x| std::ptr::eq(x, r)))
     });
     obs.count("draws", rng.draws());
@@ -678,7 +695,8 @@ fn gen_sel(g: &mut Xo, depth: usize, n: usize, cases: usize) -> Sel {
                 0 | 1 => n.saturating_sub(1).max(1),
                 2 | 3 => n.max(1),
                 4 | 5 => n + 1,
-                6 | 7 => g.urange(1, 10),
+                6 => g.urange(1, 10),
+                7 => g.log_uniform(1, n.max(1) * 2),
                 // absurdly large tournaments must still be the documented error
                 _ => *g.pick(&[usize::MAX, usize::MAX / 8 + 1, 1usize << 40, u32::MAX as usize + 1]),
             };
@@ -760,7 +778,7 @@ impl Check for C06 {
         let rng = RngSpec::swarm(g);
         match g.below(10) {
             0 | 1 => {
-                let n = g.urange(0, 6);
+                let n = if g.chance(1, 30) { g.log_uniform(7, 1000) } else { g.urange(0, 6) };
                 Sc::Chain {
                     shape: g.below(6) as u8,
                     weights: [
@@ -769,7 +787,7 @@ impl Check for C06 {
                         g.below(3) as u32,
                         g.below(3) as u32,
                     ],
-                    tsize: g.urange(1, 7),
+                    tsize: if n > 6 && g.coin() { g.log_uniform(1, n + 1) } else { g.urange(1, 7) },
                     pop: (0..n).map(|_| g.range(0, 3) as i32).collect(),
                     rng,
                 }
@@ -784,9 +802,11 @@ impl Check for C06 {
                 let n = match g.below(6) {
                     0 => 0,
                     1 => 1,
+                    // larger populations / more cases: size-dependent paths of the selectors (rare: cost)
+                    2 if g.chance(1, 20) => g.log_uniform(9, 2000),
                     _ => g.urange(0, 8),
                 };
-                let cases = g.urange(0, 4);
+                let cases = if n > 8 && g.coin() { g.log_uniform(1, 40) } else { g.urange(0, 4) };
                 let ragged = g.chance(1, 4);
                 let pop = (0..n)
                     .map(|_| {
